@@ -604,11 +604,27 @@ func runAdversaryCase(t *testing.T, c *advCase, proto bool, idx int) (what, clas
 			if strings.HasSuffix(cl, "-late") { // sent only after the hub's matching time-out (10 s) has fired
 				w.Sleep(11 * time.Second)
 			}
+			times := 1
+			if strings.HasSuffix(cl, "-x20") { // the same message twenty times in a row: more than a receiver buffers
+				cl, times = strings.TrimSuffix(cl, "-x20"), 20
+			}
 			msg, sender := a.craft(cl, n)
 			if msg == nil {
 				continue
 			}
-			if err := w.Bus.Inject(&wire.Envelope{Sender: sender, Recipient: h.WireAddr(), Msg: msg}); err != nil {
+			undec := false
+			if times == 1 {
+				undec = w.Bus.Inject(&wire.Envelope{Sender: sender, Recipient: h.WireAddr(), Msg: msg}) != nil
+			} else {
+				// back to back from one goroutine, as the reader of a connection delivers what has arrived: a delivery
+				// that finds a full receiver stays in Put
+				go func() {
+					for k := 0; k < times; k++ {
+						_ = w.Bus.Inject(&wire.Envelope{Sender: sender, Recipient: h.WireAddr(), Msg: msg})
+					}
+				}()
+			}
+			if undec {
 				continue // not decodable: outside the property
 			}
 			w.Quiesce()
@@ -802,6 +818,17 @@ func TestAdversary(t *testing.T) {
 		}
 	}
 	sup := newSupervised()
+	sup.OnHang = func(s *Supervised, desc, stacks string) {
+		blocked := mutexBlocked(stacks)
+		kind, sig := "monitor", "mutex-deadlock|"+desc
+		if i := strings.Index(desc, "|"); i > 0 {
+			sig = "mutex-deadlock|" + strings.Split(desc, "|")[1]
+		}
+		if len(blocked) == 0 {
+			kind = "conformance" // nothing of go-perun waits for a mutex: the harness hangs
+		}
+		s.Violate("C12", kind, sig, fmt.Sprintf("case %s: the client does not come to rest - goroutines of go-perun wait for a mutex that is never released (a deadlock: permanently locked): %s", desc, strings.Join(blocked, " ; ")), map[string]any{"driver": "adversary", "case": desc})
+	}
 	start := drv.EnvInt("VERIF_START", 0)
 	res.Add("sequences", len(cases))
 	for n := start; n < 2*len(cases); n++ {
